@@ -161,7 +161,7 @@ class Session:
         self.assumptions = []
         self.counters = {}
         self.functions_analysed = set()
-        self.config = 'pinned'
+        self.config = os.environ.get('YKVERIF_CONFIG', 'pinned')
         self.quiet = quiet
         self.t0 = time.time()
         self.mutants = None
